@@ -175,6 +175,7 @@ Locs == {"info",        \* info dict strings (standard and custom key)
          "indstr_info",    \* ... from a private info dict key
          "indstr_page",    \* ... from a private page dict key
          "indstr_catalog", \* ... from a private catalog key
+         "sigmeta",     \* /Name /Reason /Location /ContactInfo of a signature dictionary (only /Contents and /ByteRange are exempt)
          "sigwidget",   \* /Contents (alternate text) of the widget annotation of a signature field
          "sigcontents"} \* /Contents of a signature dictionary: the signature value
 
